@@ -36,10 +36,11 @@ ASSUMPTIONS = [
     'codec law: the lossless law is demanded of the real codecs on the region codecRegion of the model (JPEG-LS Lossless; '
     'RLE Lossless with bits_stored > bits_allocated - 8); RLE outside it is the open finding C07-rle-narrow-stored',
     'JPEG 2000 lossless: no encoder is installed in this environment; cells are observed as codec refusals (not in the region)',
-    'cells of 8, 16, 32 bits: 64-bit integer arrays are outside the model (DType has no 64-bit member) and are not drawn',
     'glue stream: images without the (type 1) Bits Stored attribute are read through get_stored_frame / get_stored_frames only '
     '(in memory and lazily) -- the readers with the Bits Allocated fall-back; the pixel transform (get_frame, get_frames), the '
-    'cached pixel_array and ImageFileReader need the attribute (C06 / pydicom) and are exercised with it present; YBR_FULL '
+    'cached pixel_array and ImageFileReader need the attribute (C06 / pydicom) and are exercised with it present; 64-bit cells are read '
+    'through get_stored_frame(s), the cached pixel_array and ImageFileReader only (the pixel transform knows 8 / 16 / 32-bit integers: '
+    'get_frame raises AttributeError input_dtype, C06); YBR_FULL '
     'frames (open finding) and the segmentation writer (keyword dictionary, C01-C04) are not drawn',
 ]
 MODELLED_NOT_VERIFIED = ['pydicom RLE encoder/decoder', 'pyjpegls (JPEG-LS) codec', 'pydicom pack_bits / unpack_bits',
@@ -67,6 +68,9 @@ MUST_ACCEPT = [
     (EXPLICIT, 'uint16', 16, 12, None, 'MONOCHROME2', 0, None, (3, 5)),
     (EXPLICIT, 'int16', 16, 16, None, 'MONOCHROME2', 1, None, (3, 5)),
     (IMPLICIT, 'int8', 8, 8, None, 'MONOCHROME2', 1, None, (3, 5)),
+    (EXPLICIT, 'uint64', 64, 64, None, 'MONOCHROME2', 0, None, (3, 5)),
+    (IMPLICIT, 'int64', 64, 64, None, 'MONOCHROME2', 1, None, (3, 5)),
+    (EXPLICIT, 'int64', 64, 40, None, 'MONOCHROME2', 1, None, (3, 5)),
     (EXPLICIT, 'uint8', 8, 8, 3, 'RGB', 0, 0, (3, 5)),
     (EXPLICIT, 'uint8', 8, 8, None, 'PALETTE COLOR', 0, None, (3, 5)),
     (RLE, 'uint8', 8, 8, None, 'MONOCHROME2', 0, None, (3, 5)),
@@ -122,7 +126,10 @@ def _mk_array(nr, dtype, shape, ba, bs, pr, content='random'):
                 lo, hi = max(lo, -(2 ** (bs - 1))), min(hi, 2 ** (bs - 1) - 1)
             else:
                 hi = min(hi, 2 ** bs - 1)
-        a = nr.integers(lo, hi, size=shape, endpoint=True).astype(dtype)
+        if np.dtype(dtype).itemsize == 8:
+            a = nr.integers(lo, hi, size=shape, endpoint=True, dtype=np.dtype(dtype))
+        else:
+            a = nr.integers(lo, hi, size=shape, endpoint=True).astype(dtype)
         if content == 'zero':
             a[...] = 0
         elif content == 'max':
@@ -130,7 +137,8 @@ def _mk_array(nr, dtype, shape, ba, bs, pr, content='random'):
         elif content == 'min':
             a[...] = lo
         elif content == 'checker':
-            a = ((np.indices(shape).sum(axis=0) % 2) * (hi - lo) + lo).astype(dtype)
+            chk = (np.indices(shape).sum(axis=0) % 2).astype(bool)
+            a = np.where(chk, np.array(hi, dtype=dtype), np.array(lo, dtype=dtype)).astype(dtype)
         elif a.size >= 2:
             a.flat[0] = hi
             a.flat[-1] = lo
@@ -268,12 +276,22 @@ def _pydicom_one_frame(b, ts, rows, cols, samples, ba, bs, pi, pr, pc):
         return ('err', f'{type(e).__name__}: {str(e)[:300]}')
 
 
+def _ints(a):
+    """the values of an integer / bool array in C order as Python ints (exact also for uint64 above 2**63)"""
+    a = np.asarray(a)
+    if a.dtype.kind == 'b':
+        a = a.astype(np.uint8)
+    if a.dtype.kind == 'f':
+        a = a.astype(np.int64)
+    return a.reshape(-1).tolist()
+
+
 def _same(got, a):
     """exact equality of shape and values (bool frames come back as 0/1 integers)"""
     got = np.asarray(got)
     if got.shape != a.shape:
         return False
-    return bool(np.array_equal(got.astype(np.int64), a.astype(np.int64)))
+    return _ints(got) == _ints(a)
 
 
 def _same_values(got, a):
@@ -281,7 +299,7 @@ def _same_values(got, a):
     got = np.asarray(got)
     if got.size != a.size:
         return False
-    return bool(np.array_equal(got.astype(np.int64).reshape(-1), np.asarray(a).astype(np.int64).reshape(-1)))
+    return _ints(got) == _ints(a)
 
 
 def _fits_stored(a, ba, bs, pr):
@@ -289,23 +307,27 @@ def _fits_stored(a, ba, bs, pr):
     the declared pixel representation stays inside the oracle (it must be refused or round-trip)"""
     if a.dtype.kind == 'f' or ba == 1 or not (1 <= bs <= 64):
         return True
-    v = a.astype(np.int64)
+    mn, mx = int(a.min()), int(a.max())
     if a.dtype.kind == 'i':
-        return bool(v.min() >= -(2 ** (bs - 1)) and v.max() < 2 ** (bs - 1))
-    return bool(v.min() >= 0 and v.max() < 2 ** bs)
+        return bool(mn >= -(2 ** (bs - 1)) and mx < 2 ** (bs - 1))
+    return bool(mn >= 0 and mx < 2 ** bs)
 
 
 def _case(kind, ts, dtype, ba, bs, samples, pi, pr, pc, a, layout='c'):
     c = {'kind': kind, 'ts': ts, 'dtype': dtype, 'ba': ba, 'bs': bs, 'samples': samples, 'pi': pi, 'pr': pr, 'pc': pc,
          'shape': list(a.shape), 'layout': layout}
     if a.size <= 400:
-        c['data'] = np.asarray(a).astype(np.float64 if a.dtype.kind == 'f' else np.int64).reshape(-1).tolist()
+        c['data'] = np.asarray(a).astype(np.float64).reshape(-1).tolist() if a.dtype.kind == 'f' else _ints(a)
     return c
 
 
 def _array_of_case(case):
-    a = np.array(case['data']).reshape(case['shape'])
-    a = a.astype(bool) if case['dtype'] == 'bool' else a.astype(case['dtype'])
+    if case['dtype'] == 'bool':
+        a = np.array(case['data']).reshape(case['shape']).astype(bool)
+    elif case['dtype'].startswith('float'):
+        a = np.array(case['data'], dtype=case['dtype']).reshape(case['shape'])
+    else:
+        a = np.array([int(v) for v in case['data']], dtype=case['dtype']).reshape(case['shape'])
     return _layout(a, case.get('layout', 'c'))
 
 
@@ -382,10 +404,10 @@ def _check(ctx, kind, ts, dtype, ba, bs, samples, pi, pr, pc, a, reqs, pending, 
     reqs.append(('encodeRouteRaw', _model_args(ts, ba, bs, pi, pr, pc, a)))
     pending.append((case, 'route', st))
     # ---- model: the refusal of `pack_bits` itself (1-bit native, content other than 0 / 1)
-    if st == 'codec' and ts in NATIVE and ba == 1 and a.dtype.kind in 'biu' and a.dtype.itemsize <= 4 and a.ndim in (2, 3) and a.size <= 2000:
+    if st == 'codec' and ts in NATIVE and ba == 1 and a.dtype.kind in 'biu' and a.ndim in (2, 3) and a.size <= 2000:
         reqs.append(('encodeFrame', {'ts': ts, 'ba': ba, 'bs': bs, 'pi': pi, 'pr': pr, 'planar': pc, 'rows': rows, 'cols': cols,
                                      'samples': (a.shape[2] if a.ndim > 2 else None), 'dtype': a.dtype.name,
-                                     'data': np.asarray(a).astype(np.int64).reshape(-1).tolist()}))
+                                     'data': _ints(a)}))
         pending.append((case, 'bytes-refused', val))
     # ---- oracle
     if must_accept and st != 'ok':
@@ -403,8 +425,8 @@ def _check(ctx, kind, ts, dtype, ba, bs, samples, pi, pr, pc, a, reqs, pending, 
                 ctx.fail(case, f'accepted, but decode_frame with the same parameters fails: {dec}', site='roundtrip')
             elif not (_same(dec, a) or (shape_free and _same_values(dec, a))):
                 ctx.fail(case, {'what': 'decode_frame(encode_frame(x)) != x', 'got_shape': list(np.asarray(dec).shape),
-                                'got': np.asarray(dec).reshape(-1)[:24].tolist(),
-                                'want': np.asarray(a).astype(np.int64).reshape(-1)[:24].tolist()}, site='roundtrip')
+                                'got': _ints(dec)[:24] if np.asarray(dec).dtype.kind in 'biu' else np.asarray(dec).reshape(-1)[:24].tolist(),
+                                'want': _ints(a)[:24]}, site='roundtrip')
             # ---- several calls in ONE process: a result is the caller's own.  Edit the decoded array in place (as windowing
             # or masking code does), decode the same bytes with the same parameters again: the second result must be the
             # original frame again and must not share memory with the first; encoding the same frame again gives the same
@@ -444,7 +466,7 @@ def _check(ctx, kind, ts, dtype, ba, bs, samples, pi, pr, pc, a, reqs, pending, 
             elif not _same_values(pyd, a):
                 ctx.fail(case, {'what': 'pydicom decodes the bytes to a different array',
                                 'got': np.asarray(pyd).reshape(-1)[:24].tolist(),
-                                'want': np.asarray(a).astype(np.int64).reshape(-1)[:24].tolist()}, site='one-frame')
+                                'want': _ints(a)[:24]}, site='one-frame')
             if ts in (RLE, JLS):
                 # the law LosslessOn codecRegion of the model, exercised on the real codec: inside the region a failure is
                 # a plain violation (never attributed), outside it (RLE, a whole unused byte) it is the open finding
@@ -454,23 +476,23 @@ def _check(ctx, kind, ts, dtype, ba, bs, samples, pi, pr, pc, a, reqs, pending, 
                 ctx.hist('codec_law', (TSNAME[ts], 'in codecRegion' if in_region else 'outside codecRegion',
                                        'held' if held else 'BROKEN'))
             # ---- model L1: native bytes and decode values
-            if ts in NATIVE and a.dtype.kind in 'biu' and a.dtype.itemsize <= 4 and a.size <= 2000:
+            if ts in NATIVE and a.dtype.kind in 'biu' and a.size <= 2000:
                 fa = {'ts': ts, 'ba': ba, 'bs': bs, 'pi': pi, 'pr': pr, 'planar': pc, 'rows': rows, 'cols': cols,
                       'samples': (a.shape[2] if a.ndim > 2 else None), 'dtype': a.dtype.name,
-                      'data': np.asarray(a).astype(np.int64).reshape(-1).tolist()}
+                      'data': _ints(a)}
                 reqs.append(('encodeFrame', fa))
                 pending.append((case, 'bytes', list(val)))
                 if st2 == 'ok' and pi not in ('YBR_FULL', 'YBR_FULL_422'):
                     reqs.append(('decodeFrame', {'ts': ts, 'ba': ba, 'bs': bs, 'pi': pi, 'pr': pr, 'planar': pc, 'rows': rows,
                                                  'cols': cols, 'samples': spp, 'bytes': list(val), 'index': 0}))
-                    pending.append((case, 'values', np.asarray(dec).astype(np.int64).reshape(-1).tolist()))
+                    pending.append((case, 'values', _ints(dec)))
 
 
 # ------------------------------------------------------------------ streams
 def _cells(ctx, reqs, pending):
     thorough = ctx.tier == 'thorough'
-    dts = ['bool', 'uint8', 'uint16', 'int16', 'int8'] + (['uint32', 'int32', 'float32'] if thorough else [])
-    bas = [1, 8, 16] + ([12, 32] if thorough else [])
+    dts = ['bool', 'uint8', 'uint16', 'int16', 'int8'] + (['uint32', 'int32', 'float32', 'uint64', 'int64'] if thorough else [])
+    bas = [1, 8, 16] + ([12, 32, 64] if thorough else [])
     idx = 0
     for ts, dt, ba, samples, pi, pr, pc in itertools.product(TS_ALL, dts, bas, [None, 3], PIS, [0, 1], [None, 0, 1]):
         shape = (4, 6) if samples is None else (4, 6, samples)
@@ -608,7 +630,8 @@ def _frames(ctx, reqs, pending):
             if ts != JLS:
                 choices += [('int16', 16, 1), ('int8', 8, 1)]
             if ts in NATIVE:
-                choices += [('bool', 1, 0), ('bool', 1, 0), ('uint8', 1, 0), ('bool', 8, 0), ('uint32', 32, 0), ('int32', 32, 1)]
+                choices += [('bool', 1, 0), ('bool', 1, 0), ('uint8', 1, 0), ('bool', 8, 0), ('uint32', 32, 0), ('int32', 32, 1),
+                            ('uint64', 64, 0), ('int64', 64, 1)]
             dt, ba, pr = r.choice(choices)
             pi, pc, s = r.choice(['MONOCHROME1', 'MONOCHROME2', 'MONOCHROME2', 'PALETTE COLOR']), None, None
         bs = ba
@@ -736,7 +759,9 @@ def _glue_reads(ds, n, num, as_index):
     out['stored'] = each(lambda k: im.get_stored_frame(fn(k), as_index=as_index))
     out['stored-batch'] = batch(lambda: im.get_stored_frames([fn(k) for k in range(n)], as_indices=as_index))
     has_stored = 'BitsStored' in ds      # absent: only get_stored_frame(s) fall back to Bits Allocated (the transform needs the attribute)
-    if has_stored:
+    # the pixel transform knows integer cells of 8 / 16 / 32 bits only (64: AttributeError 'input_dtype', C06's area)
+    has_transform = has_stored and int(ds.BitsAllocated) <= 32
+    if has_transform:
         out['frame'] = each(lambda k: im.get_frame(fn(k), as_index=as_index, dtype=dt, **_NO_TRANSFORMS))
         out['frames'] = batch(lambda: im.get_frames([fn(k) for k in range(n)], as_indices=as_index, dtype=dt, **_NO_TRANSFORMS))
     if has_stored:
@@ -744,7 +769,8 @@ def _glue_reads(ds, n, num, as_index):
             im.pixel_array          # populates the cache: the same calls now take the other branch
             out['cached-stored'] = each(lambda k: im.get_stored_frame(fn(k), as_index=as_index))
             out['cached-stored-batch'] = batch(lambda: im.get_stored_frames(None))
-            out['cached-frame'] = each(lambda k: im.get_frame(fn(k), as_index=as_index, dtype=dt, **_NO_TRANSFORMS))
+            if has_transform:
+                out['cached-frame'] = each(lambda k: im.get_frame(fn(k), as_index=as_index, dtype=dt, **_NO_TRANSFORMS))
         except Exception as e:  # noqa: BLE001
             out['cached-stored'] = [('err', f'{type(e).__name__}: {str(e)[:160]}')] * n
     try:
@@ -752,7 +778,7 @@ def _glue_reads(ds, n, num, as_index):
         lz = hd.imread(_io.BytesIO(raw), lazy_frame_retrieval=True)
         out['lazy-stored'] = each(lambda k: lz.get_stored_frame(fn(k), as_index=as_index))
         out['lazy-stored-batch'] = batch(lambda: lz.get_stored_frames([fn(k) for k in range(n)], as_indices=as_index))
-        if has_stored:
+        if has_transform:
             out['lazy-frame'] = each(lambda k: lz.get_frame(fn(k), as_index=as_index, dtype=dt, **_NO_TRANSFORMS))
             out['lazy-frames'] = batch(lambda: lz.get_frames(None, dtype=dt, **_NO_TRANSFORMS))
         if has_stored:
@@ -801,7 +827,7 @@ def _glue(ctx, reqs, pending, only=None):
             if ts != JLS:
                 opts += [('int16', 16, 16, 1), ('int16', 16, 12, 1), ('int8', 8, 8, 1), ('int8', 8, 6, 1), ('int16', 16, 10, 1)]
             if ts in NATIVE:
-                opts += [('uint32', 32, 32, 0), ('int32', 32, 20, 1)]
+                opts += [('uint32', 32, 32, 0), ('int32', 32, 20, 1), ('uint64', 64, 64, 0), ('int64', 64, 50, 1)]
             if ts in NATIVE and r.random() < 0.5:
                 opts = [o for o in opts if o[2] < o[1]]      # fewer bits stored than allocated: the high bits are nobody's
             dt, ba, bs, pr = r.choice(opts)
@@ -818,7 +844,7 @@ def _glue(ctx, reqs, pending, only=None):
         case = {'kind': 'glue', 'ts': ts, 'dtype': dt, 'ba': ba, 'bs': bs, 'pi': pi, 'pr': pr, 'pc': pc, 'samples': 3 if kind == 'colour' else None,
                 'shape': [nfr, rows, cols] + ([3] if kind == 'colour' else []), 'drop_stored': drop_stored, 'num': num,
                 'as_index': as_index, 'glue_index': i, 'dirty_high_bits': dirty is not None, 'planar1': planar1,
-                'data': np.stack(frames).astype(np.int64).reshape(-1).tolist()}
+                'data': _ints(np.stack(frames))}
         try:
             ds = _glue_dataset(frames, ts, ba, bs, pi, pr, pc, drop_stored, dirty=dirty, planar1=planar1)
         except Exception as e:  # noqa: BLE001
@@ -848,8 +874,8 @@ def _glue(ctx, reqs, pending, only=None):
                     ctx.fail(case, {'reader': reader, 'frame': k, 'error': g[1]}, site='glue-' + reader)
                 elif not _same(g, frames[k]):
                     ctx.fail(case, {'reader': reader, 'frame': k, 'what': 'the frame read back differs from the frame that was encoded',
-                                    'got': np.asarray(g).astype(np.int64).reshape(-1)[:16].tolist(),
-                                    'want': np.asarray(frames[k]).astype(np.int64).reshape(-1)[:16].tolist()}, site='glue-' + reader)
+                                    'got': _ints(g)[:16],
+                                    'want': _ints(frames[k])[:16]}, site='glue-' + reader)
         # ---- model (L0, native): `readFrame` = decode_frame with the data set's attributes on the frame's raw bytes and index
         spp_ = 3 if kind == 'colour' else 1
         if ts in NATIVE and all(x is not None for x in raws) and rows * cols * spp_ <= 400:
@@ -860,7 +886,7 @@ def _glue(ctx, reqs, pending, only=None):
                 reqs.append(('readFrame', {'ts': ts, 'rows': rows, 'cols': cols, 'samples': spp_, 'ba': ba,
                                            'bs': None if drop_stored else bs, 'pi': pi, 'pr': pr, 'planar': (1 if planar1 else pc),
                                            'bytes': list(raws[k]), 'index': k}))
-                pending.append((case, 'values', np.asarray(st).astype(np.int64).reshape(-1).tolist()))
+                pending.append((case, 'values', _ints(st)))
         # ---- decode_frame called directly with index = k on the bytes that cover frame k of the packed bit stream
         if kind == 'bits':
             npx = rows * cols
@@ -876,12 +902,12 @@ def _glue(ctx, reqs, pending, only=None):
                         st2, dec = 'err', f'{type(e).__name__}: {str(e)[:160]}'
                 if st2 != 'ok' or not _same(dec, frames[k]):
                     ctx.fail(case, {'frame': k, 'what': 'decode_frame(index=k) on the bytes covering frame k of the bit stream',
-                                    'got': dec if st2 != 'ok' else np.asarray(dec).astype(np.int64).reshape(-1)[:16].tolist(),
-                                    'want': np.asarray(frames[k]).astype(np.int64).reshape(-1)[:16].tolist()}, site='glue-index')
+                                    'got': dec if st2 != 'ok' else _ints(dec)[:16],
+                                    'want': _ints(frames[k])[:16]}, site='glue-index')
                 elif npx <= 400:
                     reqs.append(('decodeFrame', {'ts': ts, 'ba': 1, 'bs': 1, 'pi': pi, 'pr': 0, 'planar': None, 'rows': rows,
                                                  'cols': cols, 'samples': 1, 'bytes': list(data[lo:hi]), 'index': k}))
-                    pending.append((case, 'values', np.asarray(dec).astype(np.int64).reshape(-1).tolist()))
+                    pending.append((case, 'values', _ints(dec)))
 
 
 def _uids(ctx, reqs, pending):
